@@ -17,7 +17,7 @@ var allTags = []string{"Invalid", "Void", "Nil", "Bool", "Int", "Float", "String
 
 type opTables struct {
 	pkg   string
-	tag   string // "v1" | "v2"
+	tag   string            // "v1" | "v2"
 	Cells map[string]string // key -> canonical outcome set
 	Abort []string
 }
@@ -57,7 +57,63 @@ func canon(s string) string {
 	s = strings.ReplaceAll(s, "runtime.", "")
 	s = reV2Operand.ReplaceAllString(s, "$1")
 	s = reElem.ReplaceAllString(s, "elem")
-	return s
+	return normNeg(s)
+}
+
+// normNeg rewrites !(A == B) to (A != B) and !(A != B) to (A == B): a negated comparison and the opposite
+// comparison are the same function, whichever way the source spells it.
+func normNeg(s string) string {
+	for from := 0; ; {
+		i := strings.Index(s[from:], "!(")
+		if i < 0 {
+			return s
+		}
+		i += from
+		depth, end := 0, -1
+		for j := i + 1; j < len(s); j++ {
+			if s[j] == '(' {
+				depth++
+			} else if s[j] == ')' {
+				depth--
+				if depth == 0 {
+					end = j
+					break
+				}
+			}
+		}
+		if end < 0 {
+			return s
+		}
+		inner := s[i+2 : end]
+		// find the single top-level comparison operator
+		d, at, op := 0, -1, ""
+		n := 0
+		for j := 0; j+4 <= len(inner); j++ {
+			switch inner[j] {
+			case '(':
+				d++
+			case ')':
+				d--
+			}
+			if d == 0 && (inner[j:j+4] == " == " || inner[j:j+4] == " != ") {
+				at, op = j, inner[j:j+4]
+				n++
+			}
+			if d == 0 && j+4 <= len(inner) && (inner[j:j+4] == " && " || inner[j:j+4] == " || ") {
+				n = 99
+			}
+		}
+		if n != 1 {
+			from = i + 2
+			continue
+		}
+		nop := " != "
+		if op == " != " {
+			nop = " == "
+		}
+		s = s[:i] + "(" + inner[:at] + nop + inner[at+4:] + ")" + s[end+1:]
+		from = i
+	}
 }
 
 var (
